@@ -316,7 +316,7 @@ theorem reductions_filter (c : α × α → Bool) (zs : List (α × α)) :
 theorem maxMask_eq (ps : List (α × α)) :
     maxMask (fy ps) = (ps.map Prod.snd).map
       (fun y => decide (0 < y) && (ps.map Prod.snd).all (fun q => decide (q ≤ y))) := by
-  unfold maxMask
+  unfold maxMask maxMaskWith
   rw [fy_eq, npMax_fin]
   cases hps : ps.map Prod.snd with
   | nil => rfl
@@ -410,7 +410,7 @@ theorem nancumsumFrom_length (acc : X α) (y : List (X α)) : (nancumsumFrom acc
   | cons v y ih => simp [nancumsumFrom, ih]
 
 theorem bisectorScores_length (y : List (X α)) : (bisectorScores y).length = y.length := by
-  simp [bisectorScores, nancumsum, nancumsumFrom_length]
+  simp [bisectorScores, scoresWith, nancumsum, nancumsumFrom_length]
 
 theorem cums_zero (ys : List α) (h : ∀ y ∈ ys, y = 0) : ∀ c ∈ cums ys, c = 0 := by
   induction ys with
@@ -427,7 +427,7 @@ theorem cums_zero (ys : List α) (h : ∀ y ∈ ys, y = 0) : ∀ c ∈ cums ys, 
 /-- the scores computed by the array code are the documented ones (total membership non-zero) -/
 theorem bisectorScores_eq (ps : List (α × α)) (h0 : sumY ps ≠ 0) :
     bisectorScores (fy ps) = (scores ps).map fin := by
-  unfold bisectorScores scores
+  unfold bisectorScores scoresWith scores
   rw [fy_eq, nancumsum_fin]
   cases hys : ps.map Prod.snd with
   | nil => rfl
@@ -443,7 +443,7 @@ theorem bisectorScores_eq (ps : List (α × α)) (h0 : sumY ps ≠ 0) :
 /-- with zero total membership every score is NaN -/
 theorem bisectorScores_nan (ps : List (α × α)) (hz : ∀ p ∈ ps, p.2 = 0) :
     ∀ s ∈ bisectorScores (fy ps), s = (nan : X α) := by
-  unfold bisectorScores
+  unfold bisectorScores scoresWith
   rw [fy_eq, nancumsum_fin]
   have hc := cums_zero (ps.map Prod.snd) (by
     intro y hy; obtain ⟨p, hp, rfl⟩ := List.mem_map.1 hy; exact hz p hp)
@@ -465,7 +465,7 @@ theorem bisectorScores_nan (ps : List (α × α)) (hz : ∀ p ∈ ps, p.2 = 0) :
 
 theorem bisector_eq (ps : List (α × α)) (hy : ∀ p ∈ ps, 0 ≤ p.2) :
     Op.Integral.bisector (fx ps) (fy ps) = Spec.bisector ps := by
-  unfold Op.Integral.bisector Spec.bisector
+  unfold Op.Integral.bisector maskEq Spec.bisector
   by_cases h0 : sumY ps = 0
   · rw [if_pos h0]
     have hn := bisectorScores_nan ps ((sumY_eq_zero_iff ps hy).1 h0)
@@ -723,7 +723,7 @@ theorem sum_mul_zero (x : List (X α)) :
 theorem no_activation (x : List (X α)) :
     Op.Integral.centroid x [fin 0] = nan ∧ Op.Integral.bisector x [fin 0] = nan ∧ Op.Integral.som x [fin 0] = nan ∧
     Op.Integral.mom x [fin 0] = nan ∧ Op.Integral.lom x [fin 0] = nan := by
-  have hmask : maxMask [(fin 0 : X α)] = [false] := by simp [maxMask, npMax]
+  have hmask : maxMask [(fin 0 : X α)] = [false] := by simp [maxMask, maxMaskWith, npMax]
   have hmean : nanmean (List.replicate x.length (nan : X α)) = nan := by
     unfold nanmean; rw [filter_notNan_replicate]; simp [Op.Integral.sum, div, mulInf]
   refine ⟨?_, ?_, ?_, ?_, ?_⟩
@@ -731,10 +731,10 @@ theorem no_activation (x : List (X α)) :
     have : bcastRow x.length [(fin 0 : X α)] = List.replicate x.length (fin 0) := rfl
     rw [this]
     rcases sum_mul_zero x with e | e <;> rw [e] <;> simp [Op.Integral.sum, div, mulInf]
-  · unfold Op.Integral.bisector
+  · unfold Op.Integral.bisector maskEq
     have : (bisectorScores [(fin 0 : X α)]).map
         (fun a => X.eq a (npMin (bisectorScores [(fin 0 : X α)]))) = [false] := by
-      simp [bisectorScores, nancumsum, nancumsumFrom, lastOr, div, mulInf, X.sub, X.add, X.abs]
+      simp [bisectorScores, scoresWith, nancumsum, nancumsumFrom, lastOr, div, mulInf, X.sub, X.add, X.abs]
     rw [this, whereNan_false, hmean]
   · unfold Op.Integral.som nanmin; rw [hmask, whereNan_false, filter_notNan_replicate]; rfl
   · unfold Op.Integral.mom; rw [hmask, whereNan_false, hmean]
